@@ -19,7 +19,8 @@ def rows(kind):
         if kind == "seeded":
             caught = [c for c, r in sorted(res.items()) if r["exit"] == 1 and r["violations"] > 0]
             own = m["property"] in caught
-            out.append(f"| {sid} | {m['property']} | {summ} | {', '.join(caught) or '-'}{'' if own else ' (NOT by its own check)'} |")
+            tail = "" if own else (" (within latitude, see note)" if m.get("note") else " (NOT by its own check)")
+            out.append(f"| {sid} | {m['property']} | {summ} | {', '.join(caught) or '-'}{tail} |")
         else:
             alarms = [c for c, r in sorted(res.items()) if r["exit"] != 0]
             out.append(f"| {sid} | {m['property']} | {summ} | {', '.join(sorted(res))} | {', '.join(alarms) or 'none'} |")
